@@ -16,6 +16,9 @@
 (*     summary legend rt hold phrasing only; a is transparent; no a or interactive content in a,  *)
 (*     no interactive content in button/label, no form in form, no table in caption, no heading / *)
 (*     sectioning content in dt th address, main only below body/div/form, no ruby in ruby         *)
+(*   * article aside header footer (no header/footer inside) h3-h6 hgroup (p, one heading) menu  *)
+(*     (li only); EXTENSION elements: unknown to the parser (custom elements, later additions to HTML) *)
+(*     as phrasing-level elements, see CmIsExtension                                               *)
 (*   * li only in ul/ol; dl = groups of dt+ dd+; table = caption? colgroup* thead? tbody* tfoot?  *)
 (*     (tr only inside a section: what the parser builds); tr = (td|th)*; colgroup = col*;         *)
 (*     select = (option|optgroup)*; optgroup = option*; ruby = (base+ (rt | rp rt rp))+;          *)
@@ -89,18 +92,48 @@ CmDoctypes == { <<<<>>, <<>>>>, <<<<>>, V_legacy_compat>>, <<V_pub_html40, <<>>>
 -----------------------------------------------------------------------------
 \* ---- element classes (HTML namespace unless said otherwise) ----
 CmVoid      == {N_area, N_base, N_br, N_col, N_embed, N_hr, N_img, N_input, N_link, N_meta, N_param, N_source, N_track, N_wbr}
-CmFlowOnly  == {N_div, N_p, N_ul, N_ol, N_dl, N_table, N_pre, N_h1, N_h2, N_blockquote, N_form, N_fieldset, N_hr, N_address,
+CmFlowOnly  == {N_article, N_aside, N_header, N_footer, N_h3, N_h4, N_h5, N_h6, N_hgroup, N_menu,
+                N_div, N_p, N_ul, N_ol, N_dl, N_table, N_pre, N_h1, N_h2, N_blockquote, N_form, N_fieldset, N_hr, N_address,
                 N_main, N_section, N_nav, N_figure, N_dialog, N_details}
 CmPhrasing  == {N_a, N_span, N_b, N_i, N_em, N_label, N_button, N_input, N_img, N_br, N_select, N_textarea, N_ruby,
                 N_script, N_link, N_meta}
 CmInteractive == {N_a, N_button, N_select, N_textarea, N_input, N_label, N_details}
-CmHeadingSection == {N_h1, N_h2, N_section, N_nav}
+CmHeadings == {N_h1, N_h2, N_h3, N_h4, N_h5, N_h6}
+CmHeadingSection == CmHeadings \cup {N_section, N_nav, N_article, N_aside, N_hgroup, N_header, N_footer}
 \* elements whose children are flow content / phrasing content
-CmHoldsFlow == {N_body, N_div, N_li, N_dd, N_dt, N_td, N_th, N_blockquote, N_section, N_nav, N_main, N_figure, N_figcaption,
+CmHoldsFlow == {N_article, N_aside, N_header, N_footer, N_body, N_div, N_li, N_dd, N_dt, N_td, N_th, N_blockquote, N_section, N_nav, N_main, N_figure, N_figcaption,
                 N_fieldset, N_form, N_details, N_dialog, N_caption, N_address}
-CmHoldsPhrasing == {N_p, N_h1, N_h2, N_span, N_b, N_i, N_em, N_pre, N_label, N_button, N_summary, N_legend, N_rt}
+CmHoldsPhrasing == {N_h3, N_h4, N_h5, N_h6, N_p, N_h1, N_h2, N_span, N_b, N_i, N_em, N_pre, N_label, N_button, N_summary, N_legend, N_rt}
 CmHoldsText == {N_title, N_textarea, N_option, N_rp}
 CmHoldsRaw  == {N_script, N_style}
+
+\* ---- extension elements ----
+\* Names the HTML parsing algorithm (text of the html5lib era, DESIGN.md Appendix C) mentions anywhere: special / formatting /
+\* implied-end categories, the in-body, in-head, in-table, in-select start- and end-tag cases, the foreign-content breakout list.
+CmParserNames ==
+    {N_a, N_address, N_applet, N_area, N_article, N_aside, N_b, N_base, N_basefont, N_bgsound, N_big, N_blockquote, N_body, N_br,
+     N_button, N_caption, N_center, N_code, N_col, N_colgroup, N_command, N_dd, N_details, N_dialog, N_dir, N_div, N_dl, N_dt, N_em,
+     N_embed, N_fieldset, N_figcaption, N_figure, N_font, N_footer, N_form, N_frame, N_frameset, N_h1, N_h2, N_h3, N_h4, N_h5, N_h6,
+     N_head, N_header, N_hgroup, N_hr, N_html, N_i, N_iframe, N_image, N_img, N_input, N_isindex, N_keygen, N_li, N_link, N_listing,
+     N_main, N_marquee, N_math, N_menu, N_menuitem, N_meta, N_nav, N_nobr, N_noembed, N_noframes, N_noscript, N_object, N_ol,
+     N_optgroup, N_option, N_p, N_param, N_plaintext, N_pre, N_rb, N_rp, N_rt, N_rtc, N_ruby, N_s, N_script, N_section, N_select,
+     N_small, N_source, N_span, N_strike, N_strong, N_style, N_sub, N_summary, N_sup, N_svg, N_table, N_tbody, N_td, N_template,
+     N_textarea, N_tfoot, N_th, N_thead, N_title, N_tr, N_track, N_tt, N_u, N_ul, N_var, N_wbr, N_xmp}
+\* names this content model gives a meaning of their own
+CmModelledNames == CmVoid \cup CmFlowOnly \cup CmPhrasing \cup CmHoldsFlow \cup CmHoldsPhrasing \cup CmHoldsText \cup CmHoldsRaw \cup
+                   {N_html, N_head, N_ul, N_ol, N_dl, N_table, N_thead, N_tbody, N_tfoot, N_tr, N_colgroup, N_select, N_optgroup, N_ruby,
+                    N_li, N_dt, N_dd, N_caption, N_col, N_td, N_th, N_legend, N_summary, N_figcaption, N_rt, N_rp, N_option, N_title}
+CmNameSyntaxOK(n) == /\ n # <<>> /\ IsLower(n[1])
+                     /\ \A i \in 1..Len(n) : IsLower(n[i]) \/ IsDigit(n[i]) \/ n[i] \in {45, 95}          \* a-z 0-9 - _
+CmHasHyphen(n) == Contains(n, 45)
+\* An EXTENSION element: an HTML-namespace element whose name the parser does not know (an autonomous custom element -
+\* the name has a hyphen - or an element added to HTML after the parser's vocabulary was fixed, e.g. search, data).  The
+\* parsing algorithm treats it as an ordinary element and no optional-tag rule mentions it, so a correct serializer must
+\* round-trip it wherever phrasing content may stand.  Content: a custom element is transparent; any other extension
+\* element is given phrasing content only (\* ASSUMED: a conservative subset - with block children the standard's own
+\* "</p> may be omitted at the end of a non-custom parent" rule and the parser's special-element check for an unknown
+\* parent's end tag cannot both be satisfied, which is a question about the standard, not about html5lib).
+CmIsExtension(nd) == nd.ns = "html" /\ CmNameSyntaxOK(nd.n) /\ nd.n \notin CmParserNames /\ nd.n \notin CmModelledNames
 
 CmAnnotationHtml(nd) == \E i \in 1..Len(nd.a) : nd.a[i][1] = "" /\ nd.a[i][2] = N_encoding /\ Lower(nd.a[i][3]) = N_text_html
 
@@ -124,6 +157,9 @@ CmModelOf(cx, nd) ==
           [] nd.n = N_select -> "select"
           [] nd.n = N_optgroup -> "optgroup"
           [] nd.n = N_ruby -> "ruby"
+          [] nd.n = N_menu -> "list"
+          [] nd.n = N_hgroup -> "hgroup"
+          [] CmIsExtension(nd) -> (IF CmHasHyphen(nd.n) /\ cx.m = "flow" THEN "flow" ELSE "phrasing")
           [] OTHER -> "unknown"
     ELSE IF nd.ns = "svg" THEN
         CASE nd.n \in {N_svg, N_g, N_a} -> "svgc"
@@ -148,6 +184,7 @@ CmAddFlags(nd) ==
             [] nd.n \in {N_dt, N_th} -> {"noHS"}
             [] nd.n = N_address -> {"noHS", "noAddr"}
             [] nd.n = N_ruby -> {"noRuby"}
+            [] nd.n \in {N_header, N_footer} -> {"noHF"}
             [] OTHER -> {})
          \cup (IF nd.n \in {N_html, N_body, N_div, N_form} THEN {} ELSE {"noMain"})
 
@@ -248,8 +285,10 @@ CmNameAllowedByFlags(cx, ch) ==
          /\ ("noAddr" \in cx.f => ch.n # N_address)
          /\ ("noMain" \in cx.f => ch.n # N_main)
          /\ ("noRuby" \in cx.f => ch.n # N_ruby)
+         /\ ("noHF" \in cx.f => ch.n \notin {N_header, N_footer})
 
 CmPhrasingElem(ch) == (ch.ns = "html" /\ ch.n \in CmPhrasing) \/ (ch.ns = "svg" /\ ch.n = N_svg) \/ (ch.ns = "math" /\ ch.n = N_math)
+                      \/ CmIsExtension(ch)
 CmFlowElem(ch)     == CmPhrasingElem(ch) \/ (ch.ns = "html" /\ ch.n \in CmFlowOnly)
 \* link / meta in the body need itemprop (link: or a body-ok rel such as stylesheet)
 CmBodyMetaOK(ch) == IF CmIsE(ch, {N_meta}) THEN \E i \in 1..Len(ch.a) : ch.a[i][2] = A_itemprop
@@ -273,6 +312,7 @@ CmElemChildOK(cx, kids, ch) ==
                      /\ (cx.e = <<"html", N_details>> => CmFirstElemIs(kids, {N_summary}))
          [] m = "phrasing" -> CmPhrasingElem(ch) /\ CmBodyMetaOK(ch)
          [] m = "list" -> html /\ ch.n = N_li
+         [] m = "hgroup" -> html /\ (ch.n = N_p \/ (ch.n \in CmHeadings /\ ~CmHasE(kids, CmHeadings)))
          [] m = "dl" -> html /\ (ch.n = N_dt \/ (ch.n = N_dd /\ CmLastElemIs(kids, {N_dt, N_dd})))
          [] m = "table" -> html /\ ch.n \in {N_caption, N_colgroup, N_thead, N_tbody, N_tfoot}
                            /\ (IF ch.n \in {N_colgroup, N_tbody} THEN CmTableRank(ch.n) >= CmMaxRank(kids)
@@ -296,7 +336,7 @@ CmTextChildOK(cx, kids, ch) ==
          [] m = "raw" -> ~CmHasSub(d, <<60, 47>>) /\ (cx.e = <<"html", N_script>> => ~CmHasSub(d, <<60, 33, 45, 45>>))
          [] m = "ruby" -> CmRubyStep(CmRubyState(kids, Len(kids)), ch) # "X"
          [] m = "html" -> AllWs(d) /\ CmHasE(kids, {N_head}) /\ ~CmHasE(kids, {N_body})
-         [] m \in {"head", "list", "dl", "table", "tsect", "tr", "colgroup", "select", "optgroup", "svgc", "math"} -> AllWs(d)
+         [] m \in {"hgroup", "head", "list", "dl", "table", "tsect", "tr", "colgroup", "select", "optgroup", "svgc", "math"} -> AllWs(d)
          [] OTHER -> FALSE
 \* comment data the syntax can express: not starting with ">" or "->", no "<!--", "-->", "--!>", not ending in "<!-"
 \* (the standard's rule); additionally no "--" at all and no trailing "-" (a conservative subset: older revisions of
@@ -327,6 +367,7 @@ CmCloseOK(cx, kids) ==
       [] cx.m = "html" -> CmHasE(kids, {N_body})
       [] cx.m = "dl" -> ~CmLastElemIs(kids, {N_dt})
       [] cx.m = "ruby" -> CmRubyState(kids, Len(kids)) \in {"T", "C"}
+      [] cx.m = "hgroup" -> CmHasE(kids, CmHeadings)
       [] cx.e = <<"html", N_details>> -> CmFirstElemIs(kids, {N_summary})
       [] cx.e = <<"html", N_title>> -> kids # <<>> /\ ~AllWs(kids[1].d)
       [] OTHER -> TRUE
